@@ -1320,13 +1320,13 @@ theorem open_lz (F : FS) (vol load : Bool) (opts : Opts) (ea : Bool) (h : OpenOK
     have hXa : openIndex { fs := F, volatile := vol, opts := opts, eager := ea } =
         setE (openIndex { fs := F, volatile := vol, opts := opts, eager := true }) ea :=
       openIndex_setE { fs := F, volatile := vol, opts := opts, eager := true } ea
-    generalize openIndex { fs := F, volatile := vol, opts := opts, eager := true } = X at S hXe hXa
+    generalize hX : openIndex { fs := F, volatile := vol, opts := opts, eager := true } = X at S hXe hXa
     have hload := loadAll_of_openState F' vol X S hR hXe
     have eg2 : openDB F vol true opts true =
         { X with index := mapV (loadedRec X.fs) (diskIndex F'), dataSeq := u32 (X.maxSeq + 1) } := by
       unfold openDB
       simp only [↓reduceIte]
-      rw [hload]
+      rw [hX, hload]
     have hreads : ∀ kr ∈ diskIndex F', ∃ f v, dlookup kr.2.seq (setE X ea).fs.dats = some f ∧ ReadsBack f kr.2 v := by
       intro kr hkr
       obtain ⟨_, f, v, h3, h4⟩ := hR kr hkr
@@ -1365,5 +1365,404 @@ theorem open_lz (F : FS) (vol load : Bool) (opts : Opts) (ea : Bool) (h : OpenOK
       rw [diskIndex_noLog F hd] at hkr
       exact h.readable kr hkr
     exact key (noLog F) (open_state_discard F vol opts hd) hR
+
+/-! ### the eager twin of a history -/
+
+theorem close_nv (d : DB) (hf : d.failed = none) (hv : d.volatile = false) (hs : (sync d).failed = none) :
+    close d = { sync d with datOpen := false, logOpen := false, index := [], pending := [] } := by
+  unfold close
+  rw [if_neg (by simp [hf])]
+  simp only [hv, Bool.false_eq_true, ↓reduceIte]
+  split
+  · rename_i w hw; rw [hs] at hw; cases hw
+  · rfl
+
+/-- the same operation with LoadData = true (the flags stay as they are) -/
+def twinOp : Op → Op
+  | .reopen v _ o => .reopen v true o
+  | op => op
+
+def twinItem : HItem → HItem
+  | .op o => .op (twinOp o)
+  | .crash o n ms vol opts => .crash (twinOp o) n ms vol opts
+
+/-- the same history in which every NewDBExt loads the data at once — run by the eager ghost -/
+def twin (H : List HItem) : List HItem := H.map twinItem
+
+/-- the operations of the real store: ANY flags (32-bit, NO_CACHE included) in PutExt / ApplyFlags / walk results,
+    Close + NewDBExt in ANY mode with ANY LoadData -/
+def OpOK5 : Op → Prop
+  | .putExt _ _ f => f < 2^32
+  | .applyFlags _ fl => fl < 2^32
+  | .browse w => ∀ kf ∈ w, kf.2 < 2^32
+  | _ => True
+
+theorem hasFlag_big32 (x : Nat) (h : x < 2^32) : hasFlag x (ncOf true) = false :=
+  hasFlag_big_of_lt x (Nat.lt_trans h (by decide))
+
+theorem opOK3_twin (op : Op) (h : OpOK5 op) : OpOK3 true (twinOp op) := by
+  cases op with
+  | putExt k v f => exact hasFlag_big32 f h
+  | applyFlags k fl => exact hasFlag_big32 fl h
+  | browse w => exact fun kf hkf => hasFlag_big32 kf.2 (h kf hkf)
+  | reopen vol load opts => rfl
+  | put k v => trivial
+  | del k => trivial
+  | get k => trivial
+  | defrag f => trivial
+  | sync => trivial
+  | noSync => trivial
+
+/-- the real store `a` and its eager ghost `g`, non-volatile mode -/
+def TwinN (a g : DB) : Prop := Lz a.pending a g ∧ Inv3 g
+
+/-- the real store `a` and its eager ghost `g`, volatile mode: `P` are the keys changed since NewDBExt -/
+def TwinV (a g : DB) : Prop :=
+  VInv g ∧ ∃ P, Inv3 (ghost g P) ∧ (g.noSync = false → P = []) ∧ Lz P a g
+
+def Twin (a g : DB) : Prop := TwinN a g ∨ TwinV a g
+
+theorem Twin.sinv {a g : DB} (h : Twin a g) : SInv g := by
+  rcases h with ⟨_, h⟩ | ⟨h, _⟩
+  · exact Or.inl h
+  · exact Or.inr h
+
+theorem Twin.ge {a g : DB} (h : Twin a g) : g.eager = true := by
+  rcases h with ⟨h, _⟩ | ⟨_, P, _, _, h⟩
+  · exact h.ge
+  · exact h.ge
+
+theorem Twin.fs {a g : DB} (h : Twin a g) : a.fs = g.fs := by
+  rcases h with ⟨h, _⟩ | ⟨_, P, _, _, h⟩
+  · exact h.fs
+  · exact h.fs
+
+theorem Twin.effs {a g : DB} (h : Twin a g) : a.effs = g.effs := by
+  rcases h with ⟨h, _⟩ | ⟨_, P, _, _, h⟩
+  · exact h.effs
+  · exact h.effs
+
+/-! #### NewDBExt after a close or a crash, into either mode -/
+
+theorem lz_effs {P : List Key} {a g : DB} (h : Lz P a g) (E : List (String × Effect)) :
+    Lz P { a with effs := E ++ a.effs } { g with effs := E ++ g.effs } := by
+  have he : a.effs = g.effs := h.effs
+  refine ⟨?_, h.idx, h.np, h.pz, h.ge⟩
+  have := congrArg (fun d : DB => { d with effs := E ++ d.effs }) h.sh
+  exact this
+
+theorem open_twin (F : FS) (vol load : Bool) (opts : Opts) (ea : Bool) (E : List (String × Effect)) (h : OpenOK true F)
+    (hmax : (openIndex { fs := F, volatile := vol, opts := opts, eager := true }).maxSeq + 1 < 2^32) :
+    Twin { openDB F vol load opts ea with effs := E ++ (openDB F vol load opts ea).effs }
+      { openDB F vol true opts true with effs := E ++ (openDB F vol true opts true).effs } := by
+  have ho := lz_effs (open_lz F vol load opts ea h) E
+  cases vol with
+  | false =>
+    obtain ⟨h3, hp⟩ := open_inv3g F opts h hmax
+    refine Or.inl ⟨?_, inv3_effs _ h3 _⟩
+    have hpa : ({ openDB F false load opts ea with effs := E ++ (openDB F false load opts ea).effs } : DB).pending = [] :=
+      ho.pending.trans hp
+    rw [hpa]
+    exact ho
+  | true =>
+    obtain ⟨hV, hns, _⟩ := open_vinv F opts h hmax
+    have hV' := vinv_effs hV (E ++ (openDB F true true opts true).effs)
+    obtain ⟨P, h3, hP⟩ := hV'.gh
+    have hP0 : P = [] := hP hns
+    subst hP0
+    exact Or.inr ⟨hV', [], h3, fun _ => rfl, ho⟩
+
+/-! #### Close -/
+
+/-- Close of the real store and of its ghost leave the same directory, by the same file operations -/
+theorem close_twin (a g : DB) (h : Twin a g) (hs : SizeOK g) (hd : DFits g) :
+    (close a).failed = none ∧ (close a).fs = (close g).fs ∧ (close a).effs = (close g).effs ∧ Closed g := by
+  rcases h with ⟨hl, h3⟩ | ⟨hV, P, h3, hP, hl⟩
+  · have inv := h3.inv
+    have hsl := sync_lz hl h3 hs hd.seq
+    have hsf : (sync g).failed = none := (sync_inv g inv hs).1.cached.1
+    have hfa : a.failed = none := hl.failed.trans inv.cached.1
+    have hva : a.volatile = false := hl.volatile.trans inv.nv
+    have hca := close_nv a hfa hva (hsl.failed.trans hsf)
+    have hcg := close_nv g inv.cached.1 inv.nv hsf
+    exact ⟨by rw [hca]; exact hsl.failed.trans hsf, by rw [hca, hcg]; exact hsl.fs,
+      by rw [hca, hcg]; exact hsl.effs, nclose g h3 hs hd⟩
+  · have hc : Cached g := h3.inv.cached
+    have hfa : a.failed = none := hl.failed.trans hc.1
+    have hva : a.volatile = true := hl.volatile.trans hV.vol
+    have c := vclose g hV hs.2 hd
+    cases hn : g.noSync with
+    | false =>
+      have hna : a.noSync = false := hl.noSync.trans hn
+      have ea : close a = { a with datOpen := false, logOpen := false, index := [], pending := [] } := by
+        unfold close
+        rw [if_neg (by simp [hfa])]
+        simp only [hva, hna, ↓reduceIte, Bool.false_eq_true, hfa]
+      have eg2 : close g = { g with datOpen := false, logOpen := false, index := [], pending := [] } := by
+        unfold close
+        rw [if_neg (notFailed hc)]
+        simp only [hV.vol, hn, ↓reduceIte, Bool.false_eq_true, hc.1]
+      exact ⟨by rw [ea]; exact hfa, by rw [ea, eg2]; exact hl.fs, by rw [ea, eg2]; exact hl.effs, c⟩
+    | true =>
+      have hna : a.noSync = true := hl.noSync.trans hn
+      have hdl := defrag_lz hl hc h3.inv.nodup (hl.loads (ghost g P) rfl rfl rfl h3.inv)
+        (hl.lazy_seq (ghost g P) rfl rfl rfl rfl h3 hd.seq)
+      have hdf : (defrag g).failed = none := (defrag_cached g hc).cached.1
+      have hdfa : (defrag a).failed = none := hdl.failed.trans hdf
+      have ea : close a = { defrag a with datOpen := false, logOpen := false, index := [], pending := [] } := by
+        unfold close
+        rw [if_neg (by simp [hfa])]
+        simp only [hva, hna, ↓reduceIte, hdfa]
+      have eg2 : close g = { defrag g with datOpen := false, logOpen := false, index := [], pending := [] } := by
+        unfold close
+        rw [if_neg (notFailed hc)]
+        simp only [hV.vol, hn, ↓reduceIte, hdf]
+      exact ⟨by rw [ea]; exact hdfa, by rw [ea, eg2]; exact hdl.fs, by rw [ea, eg2]; exact hdl.effs, c⟩
+
+/-! #### one operation, either mode -/
+
+theorem twin_reopen (a g : DB) (h : Twin a g) (vol load : Bool) (opts : Opts)
+    (fits : OpFits3 g (.reopen vol true opts)) (hd : DFits g) :
+    Twin (step a (.reopen vol load opts)) (step g (.reopen vol true opts)) := by
+  have hge := h.ge
+  obtain ⟨hfl, hfs, hef, c⟩ := close_twin a g h fits.1 hd
+  have hcge : (close g).eager = true := c.eager.trans hge
+  have hok : OpenOK true (close g).fs := by have := c.ok; rw [hge] at this; exact this
+  have e1 : step a (.reopen vol load opts) = { openDB (close g).fs vol load opts (close a).eager with
+      effs := (close g).effs ++ (openDB (close g).fs vol load opts (close a).eager).effs } := by
+    show (match (close a).failed with
+      | some _ => close a
+      | none => { openDB (close a).fs vol load opts (close a).eager with
+                  effs := (close a).effs ++ (openDB (close a).fs vol load opts (close a).eager).effs }) = _
+    rw [hfl, hfs, hef]
+  have e2 : step g (.reopen vol true opts) = { openDB (close g).fs vol true opts true with
+      effs := (close g).effs ++ (openDB (close g).fs vol true opts true).effs } := by
+    show (match (close g).failed with
+      | some _ => close g
+      | none => { openDB (close g).fs vol true opts (close g).eager with
+                  effs := (close g).effs ++ (openDB (close g).fs vol true opts (close g).eager).effs }) = _
+    rw [c.failed, hcge]
+  rw [e1, e2]
+  exact open_twin _ vol load opts _ _ hok (by have := fits.2; rw [hge] at this; exact this)
+
+theorem twin_stepV (a g : DB) (hV : VInv g) (P : List Key) (h3 : Inv3 (ghost g P)) (hP : g.noSync = false → P = [])
+    (hl : Lz P a g) (op : Op) (hnr : ∀ x y z, op ≠ .reopen x y z) (ok : OpOK true op) (fits : OpFits g op) :
+    TwinV (step a op) (step g op) := by
+  have hge : g.eager = true := hl.ge
+  have okg : OpOK g.eager op := by rw [hge]; exact ok
+  obtain ⟨hV', _, _, _⟩ := vstep_vinv g hV op okg fits
+  obtain ⟨_, h3', hP'⟩ := vstep_ghost g hV.vol P h3 hP op okg fits
+  have hc : Cached g := h3.inv.cached
+  have hnd : (Keys g.index).Nodup := h3.inv.nodup
+  have hld : Loads a g := hl.loads (ghost g P) rfl rfl rfl h3.inv
+  have hfa : a.failed = none := hl.failed.trans hc.1
+  have hva : a.volatile = true := hl.volatile.trans hV.vol
+  refine ⟨hV', nextP P op, h3', hP', ?_⟩
+  cases op with
+  | reopen x y z => exact absurd rfl (hnr x y z)
+  | put k v =>
+    show Lz (pendingAdd P k) (putExt a k v 0) (putExt g k v 0)
+    have ea : putExt a k v 0 = { memput a k (newRec v 0) with noSync := true } := by
+      unfold putExt afterChange
+      rw [if_neg (by simp [hfa])]
+      simp only [(memput_spec a k (newRec v 0)).2.2.1, hva, ↓reduceIte]
+    have eg2 : putExt g k v 0 = { memput g k (newRec v 0) with noSync := true } := by
+      unfold putExt afterChange
+      rw [if_neg (notFailed hc)]
+      simp only [(memput_spec g k (newRec v 0)).2.2.1, hV.vol, ↓reduceIte]
+    rw [ea, eg2]
+    have hm := memput_lz hl k (newRec v 0) rfl rfl
+    exact ⟨congrArg (fun d : DB => { d with noSync := true }) hm.sh, hm.idx, hm.np, hm.pz, hm.ge⟩
+  | putExt k v f =>
+    show Lz (pendingAdd P k) (putExt a k v f) (putExt g k v f)
+    have ea : putExt a k v f = { memput a k (newRec v f) with noSync := true } := by
+      unfold putExt afterChange
+      rw [if_neg (by simp [hfa])]
+      simp only [(memput_spec a k (newRec v f)).2.2.1, hva, ↓reduceIte]
+    have eg2 : putExt g k v f = { memput g k (newRec v f) with noSync := true } := by
+      unfold putExt afterChange
+      rw [if_neg (notFailed hc)]
+      simp only [(memput_spec g k (newRec v f)).2.2.1, hV.vol, ↓reduceIte]
+    rw [ea, eg2]
+    have hm := memput_lz hl k (newRec v f) rfl rfl
+    exact ⟨congrArg (fun d : DB => { d with noSync := true }) hm.sh, hm.idx, hm.np, hm.pz, hm.ge⟩
+  | del k =>
+    show Lz (pendingAdd P k) (del a k) (del g k)
+    have ea : del a k = { memdel a k with noSync := true } := by
+      unfold del afterChange
+      rw [if_neg (by simp [hfa])]
+      simp only [(memdel_spec a k).2.2.1, hva, ↓reduceIte]
+    have eg2 : del g k = { memdel g k with noSync := true } := by
+      unfold del afterChange
+      rw [if_neg (notFailed hc)]
+      simp only [(memdel_spec g k).2.2.1, hV.vol, ↓reduceIte]
+    rw [ea, eg2]
+    have hm := memdel_lz hl hnd k
+    exact ⟨congrArg (fun d : DB => { d with noSync := true }) hm.sh, hm.idx, hm.np, hm.pz, hm.ge⟩
+  | get k => exact (get_lz hl hc hld k).1
+  | browse w => exact (browseGen_lz false hl hc hnd hld w ok).1
+  | applyFlags k fl => exact applyFlags_lz hl hc k fl
+  | sync =>
+    have ea : step a .sync = a := by
+      show syncOp a = a
+      unfold syncOp; rw [if_neg (by simp [hfa])]; simp [hva]
+    have eg2 : step g .sync = g := by
+      show syncOp g = g
+      unfold syncOp; rw [if_neg (notFailed hc)]; simp [hV.vol]
+    rw [ea, eg2]; exact hl
+  | defrag f =>
+    have ea : step a (.defrag f) = a := by
+      show (defragOp a f).1 = a
+      unfold defragOp; rw [if_neg (by simp [hfa])]; simp [hva]
+    have eg2 : step g (.defrag f) = g := by
+      show (defragOp g f).1 = g
+      unfold defragOp; rw [if_neg (notFailed hc)]; simp [hV.vol]
+    rw [ea, eg2]; exact hl
+  | noSync =>
+    have ea : step a .noSync = a := by
+      show noSyncOp a = a
+      unfold noSyncOp; rw [if_neg (by simp [hfa])]; simp [hva]
+    have eg2 : step g .noSync = g := by
+      show noSyncOp g = g
+      unfold noSyncOp; rw [if_neg (notFailed hc)]; simp [hV.vol]
+    rw [ea, eg2]; exact hl
+
+theorem twin_step (a g : DB) (h : Twin a g) (op : Op) (ok : OpOK5 op) (fits : OpFits3 g (twinOp op))
+    (hd : DFits (preSync g (twinOp op))) : Twin (step a op) (step g (twinOp op)) := by
+  have ok3 := opOK3_twin op ok
+  have hge := h.ge
+  cases op with
+  | reopen vol load opts => exact twin_reopen a g h vol load opts fits hd
+  | put k v =>
+    rcases h with ⟨hl, h3⟩ | ⟨hV, P, h3, hP, hl⟩
+    · exact Or.inl ⟨step_lz hl h3 (.put k v) (fun _ _ _ => by simp) ok3 fits hd.seq, (step_inv3' g h3 (.put k v) (by rw [hge]; exact ok3) fits).1⟩
+    · exact Or.inr (twin_stepV a g hV P h3 hP hl (.put k v) (fun _ _ _ => by simp) ok3 fits)
+  | putExt k v f =>
+    rcases h with ⟨hl, h3⟩ | ⟨hV, P, h3, hP, hl⟩
+    · exact Or.inl ⟨step_lz hl h3 (.putExt k v f) (fun _ _ _ => by simp) ok3 fits hd.seq, (step_inv3' g h3 (.putExt k v f) (by rw [hge]; exact ok3) fits).1⟩
+    · exact Or.inr (twin_stepV a g hV P h3 hP hl (.putExt k v f) (fun _ _ _ => by simp) ok3 fits)
+  | del k =>
+    rcases h with ⟨hl, h3⟩ | ⟨hV, P, h3, hP, hl⟩
+    · exact Or.inl ⟨step_lz hl h3 (.del k) (fun _ _ _ => by simp) ok3 fits hd.seq, (step_inv3' g h3 (.del k) (by rw [hge]; exact ok3) fits).1⟩
+    · exact Or.inr (twin_stepV a g hV P h3 hP hl (.del k) (fun _ _ _ => by simp) ok3 fits)
+  | get k =>
+    rcases h with ⟨hl, h3⟩ | ⟨hV, P, h3, hP, hl⟩
+    · exact Or.inl ⟨step_lz hl h3 (.get k) (fun _ _ _ => by simp) ok3 fits hd.seq, (step_inv3' g h3 (.get k) (by rw [hge]; exact ok3) fits).1⟩
+    · exact Or.inr (twin_stepV a g hV P h3 hP hl (.get k) (fun _ _ _ => by simp) ok3 fits)
+  | browse w =>
+    rcases h with ⟨hl, h3⟩ | ⟨hV, P, h3, hP, hl⟩
+    · exact Or.inl ⟨step_lz hl h3 (.browse w) (fun _ _ _ => by simp) ok3 fits hd.seq, (step_inv3' g h3 (.browse w) (by rw [hge]; exact ok3) fits).1⟩
+    · exact Or.inr (twin_stepV a g hV P h3 hP hl (.browse w) (fun _ _ _ => by simp) ok3 fits)
+  | applyFlags k fl =>
+    rcases h with ⟨hl, h3⟩ | ⟨hV, P, h3, hP, hl⟩
+    · exact Or.inl ⟨step_lz hl h3 (.applyFlags k fl) (fun _ _ _ => by simp) ok3 fits hd.seq, (step_inv3' g h3 (.applyFlags k fl) (by rw [hge]; exact ok3) fits).1⟩
+    · exact Or.inr (twin_stepV a g hV P h3 hP hl (.applyFlags k fl) (fun _ _ _ => by simp) ok3 fits)
+  | defrag f =>
+    rcases h with ⟨hl, h3⟩ | ⟨hV, P, h3, hP, hl⟩
+    · exact Or.inl ⟨step_lz hl h3 (.defrag f) (fun _ _ _ => by simp) ok3 fits hd.seq, (step_inv3' g h3 (.defrag f) (by rw [hge]; exact ok3) fits).1⟩
+    · exact Or.inr (twin_stepV a g hV P h3 hP hl (.defrag f) (fun _ _ _ => by simp) ok3 fits)
+  | sync =>
+    rcases h with ⟨hl, h3⟩ | ⟨hV, P, h3, hP, hl⟩
+    · exact Or.inl ⟨step_lz hl h3 .sync (fun _ _ _ => by simp) ok3 fits hd.seq, (step_inv3' g h3 .sync (by rw [hge]; exact ok3) fits).1⟩
+    · exact Or.inr (twin_stepV a g hV P h3 hP hl .sync (fun _ _ _ => by simp) ok3 fits)
+  | noSync =>
+    rcases h with ⟨hl, h3⟩ | ⟨hV, P, h3, hP, hl⟩
+    · exact Or.inl ⟨step_lz hl h3 .noSync (fun _ _ _ => by simp) ok3 fits hd.seq, (step_inv3' g h3 .noSync (by rw [hge]; exact ok3) fits).1⟩
+    · exact Or.inr (twin_stepV a g hV P h3 hP hl .noSync (fun _ _ _ => by simp) ok3 fits)
+
+def HOK5 (i : HItem) : Prop := OpOK5 (itemOp i)
+
+theorem itemOp_twin (i : HItem) : itemOp (twinItem i) = twinOp (itemOp i) := by
+  cases i <;> rfl
+
+theorem hok_twin (H : List HItem) (ok : ∀ i ∈ H, HOK5 i) : ∀ i ∈ twin H, HOK true i := by
+  intro i hi
+  obtain ⟨j, hj, rfl⟩ := List.mem_map.mp hi
+  show OpOK3 true (itemOp (twinItem j))
+  rw [itemOp_twin]
+  exact opOK3_twin _ (ok j hj)
+
+/-- EVERY history: the real store (NO_CACHE flags, lazy loading, both modes, crashes, recoveries) against its eager
+    ghost. The two runs stay related — same directory, same file operations (hence the same crash directories); the
+    real store holds the ghost's records, some of them not in memory, and those load to the ghost's records. -/
+theorem twin_run (H : List HItem) (a g : DB) (h : Twin a g) (ok : ∀ i ∈ H, HOK5 i)
+    (fits : HFits g (twin H)) : Twin (hrun a H) (hrun g (twin H)) := by
+  induction H generalizing a g with
+  | nil => exact h
+  | cons i t ih =>
+    cases i with
+    | op o =>
+      have oko : OpOK5 o := ok (.op o) List.mem_cons_self
+      obtain ⟨f1, f2, f3⟩ := fits
+      exact ih (step a o) (step g (twinOp o)) (twin_step a g h o oko f1 f2)
+        (fun x hx => ok x (List.mem_cons_of_mem _ hx)) f3
+    | crash o n ms vol opts =>
+      have oko : OpOK5 o := ok (.crash o n ms vol opts) List.mem_cons_self
+      obtain ⟨f1, f2, f3, f4⟩ := fits
+      have hs := twin_step a g h o oko f1 f2
+      have hge : g.eager = true := h.ge
+      have hcd : crashDir a o n = crashDir g (twinOp o) n := by
+        unfold crashDir opEffs
+        rw [h.fs, h.effs, hs.effs]
+      have S := stepOK g h.sinv (twinOp o) (by rw [hge]; exact opOK3_twin o oko) f1 f2
+      obtain ⟨es, e1, A⟩ := S.atomic
+      have hcd2 : crashDir g (twinOp o) n = g.fs.applyAll ((es.map (·.2)).take n) := by
+        unfold crashDir opEffs
+        rw [e1, List.drop_left]
+      obtain ⟨o1, _⟩ := A n
+      rw [← hcd2] at o1
+      obtain ⟨o2, _⟩ := recrash_ok opts ms _ o1
+      rw [hge] at o2
+      have f3' := f3
+      rw [hge] at f3'
+      have ht := open_twin (recrash opts (crashDir g (twinOp o) n) ms) vol true opts a.eager [] o2 f3'
+      have ea : hstep a (.crash o n ms vol opts) =
+          { openDB (recrash opts (crashDir g (twinOp o) n) ms) vol true opts a.eager with
+            effs := [] ++ (openDB (recrash opts (crashDir g (twinOp o) n) ms) vol true opts a.eager).effs } := by
+        show openDB (recrash opts (crashDir a o n) ms) vol true opts a.eager = _
+        rw [hcd]
+        rfl
+      have eg2 : hstep g (twinItem (.crash o n ms vol opts)) =
+          { openDB (recrash opts (crashDir g (twinOp o) n) ms) vol true opts true with
+            effs := [] ++ (openDB (recrash opts (crashDir g (twinOp o) n) ms) vol true opts true).effs } := by
+        show openDB (recrash opts (crashDir g (twinOp o) n) ms) vol true opts g.eager = _
+        rw [hge]
+        rfl
+      refine ih _ _ ?_ (fun x hx => ok x (List.mem_cons_of_mem _ hx)) f4
+      rw [ea, eg2]
+      exact ht
+
+/-- what the real store shows, against its eager ghost -/
+theorem Twin.observe {a g : DB} (h : Twin a g) :
+    a.failed = none ∧ a.fs = g.fs ∧ a.effs = g.effs ∧
+    (∀ k, (Qdb.get a k).1.failed = none ∧ (Qdb.get a k).2 = vals g k) ∧
+    (∀ w, (∀ kf ∈ w, kf.2 < 2^32) → (browse a w).2 = (browse g w).2) ∧ count a = count g := by
+  have hc : Cached g := h.sinv.cached
+  have hnd : (Keys g.index).Nodup := h.sinv.nodup
+  have key : ∀ (P : List Key) (hl : Lz P a g) (hld : Loads a g),
+      a.failed = none ∧ a.fs = g.fs ∧ a.effs = g.effs ∧
+      (∀ k, (Qdb.get a k).1.failed = none ∧ (Qdb.get a k).2 = vals g k) ∧
+      (∀ w, (∀ kf ∈ w, kf.2 < 2^32) → (browse a w).2 = (browse g w).2) ∧ count a = count g := by
+    intro P hl hld
+    refine ⟨hl.failed.trans hc.1, hl.fs, hl.effs, fun k => ?_, fun w hw => ?_, hl.idx.length⟩
+    · obtain ⟨l, e⟩ := get_lz hl hc hld k
+      exact ⟨l.failed.trans (get_cached g k hc).1.1, e.trans (get_cached g k hc).2.2⟩
+    · exact (browseGen_lz false hl hc hnd hld w (fun kf hkf => hasFlag_big32 kf.2 (hw kf hkf))).2
+  rcases h with ⟨hl, h3⟩ | ⟨_, P, h3, _, hl⟩
+  · exact key _ hl (hl.loads g rfl rfl hl.pending.symm h3.inv)
+  · exact key P hl (hl.loads (ghost g P) rfl rfl rfl h3.inv)
+
+/-! ### the real store starts with the ghost field off -/
+
+theorem fresh_eager (load : Bool) (opts : Opts) : (openDB {} false load opts).eager = false :=
+  openDB_eager (eg := false) {} false load opts
+
+theorem ok2_fresh (load : Bool) (opts : Opts) (ops : List Op) (ok : ∀ op ∈ ops, OpOK2 false op) :
+    ∀ op ∈ ops, OpOK2 (openDB {} false load opts).eager op := by
+  rw [fresh_eager]; exact ok
+
+theorem hok_fresh (load : Bool) (opts : Opts) (H : List HItem) (ok : ∀ i ∈ H, HOK false i) :
+    ∀ i ∈ H, HOK (openDB {} false load opts).eager i := by
+  rw [fresh_eager]; exact ok
 
 end GocoinV.Proofs.C19
